@@ -11,10 +11,14 @@ Proof.
   assert (existsb f l = true) by (apply existsb_exists; exists x; split; assumption). congruence.
 Qed.
 
-Lemma info_sites_clean_true : info_sites_clean = true.
+(* stated on the unfolded forms so that Qed never has to convert a folded constant with the big lists *)
+Lemma info_sites_clean_true : forallb site_ok log_sites = true.
 Proof. vm_compute. reflexivity. Qed.
 
-Lemma raise_sites_clean_true : raise_sites_clean = true.
+Lemma raise_sites_clean_true : forallb raise_ok raise_sites = true.
+Proof. vm_compute. reflexivity. Qed.
+
+Lemma debug_if_tainted_true : forallb debug_if_tainted log_sites = true.
 Proof. vm_compute. reflexivity. Qed.
 
 Lemma no_secret_at_info :
@@ -22,8 +26,8 @@ Lemma no_secret_at_info :
   forall n, In n (ls_names s) -> name_tainted (ls_file s) (ls_func s) n = false.
 Proof.
   intros s Hs Hlevel n Hn.
-  pose proof info_sites_clean_true as H. unfold info_sites_clean in H. rewrite forallb_forall in H.
-  specialize (H s Hs). apply orb_true_iff in H. destruct H as [H|H].
+  pose proof (proj1 (forallb_forall site_ok log_sites) info_sites_clean_true s Hs) as H.
+  unfold site_ok in H. apply orb_true_iff in H. destruct H as [H|H].
   - apply Z.ltb_lt in H. lia.
   - apply negb_true_iff in H. unfold site_tainted in H. unfold name_tainted.
     exact (existsb_false_all _ _ H n Hn).
@@ -33,8 +37,8 @@ Lemma no_secret_in_exception_text :
   forall r, In r raise_sites -> forall n, In n (rs_names r) -> name_tainted (rs_file r) (rs_func r) n = false.
 Proof.
   intros r Hr n Hn.
-  pose proof raise_sites_clean_true as H. unfold raise_sites_clean in H. rewrite forallb_forall in H.
-  specialize (H r Hr). apply negb_true_iff in H. unfold raise_tainted in H. unfold name_tainted.
+  pose proof (proj1 (forallb_forall raise_ok raise_sites) raise_sites_clean_true r Hr) as H.
+  unfold raise_ok in H. apply negb_true_iff in H. unfold raise_tainted in H. unfold name_tainted.
   exact (existsb_false_all _ _ H n Hn).
 Qed.
 
@@ -43,10 +47,9 @@ Lemma debug_only_sites :
   (forall s, In s log_sites -> site_tainted s = true -> ls_level s = DEBUG).
 Proof.
   split; [vm_compute; reflexivity|].
-  assert (H : forallb (fun s => negb (site_tainted s) || Z.eqb (ls_level s) DEBUG) log_sites = true)
-    by (vm_compute; reflexivity).
-  rewrite forallb_forall in H. intros s Hs Ht. specialize (H s Hs). rewrite Ht in H. cbn in H.
-  apply Z.eqb_eq in H. exact H.
+  intros s Hs Ht.
+  pose proof (proj1 (forallb_forall debug_if_tainted log_sites) debug_if_tainted_true s Hs) as H.
+  unfold debug_if_tainted in H. rewrite Ht in H. cbn [negb orb] in H. apply Z.eqb_eq in H. exact H.
 Qed.
 
 Lemma verbosity :
@@ -66,10 +69,5 @@ Example taint_examples :
   name_tainted "ikesa.py" "IkeSa.log_message" "message.exchange_type.name" = false /\
   name_tainted "configuration.py" "Configuration._load_from_dict" "key" = false /\
   name_tainted "crypto.py" "Prf.prf" "key" = true /\
-  (exists s, In s log_sites /\ (INFO <= ls_level s)%Z /\ ls_names s <> []).
-Proof.
-  repeat split; try (vm_compute; reflexivity).
-  exists (nth 3 log_sites (nth 0 log_sites {| ls_file := ""; ls_func := ""; ls_line := 0; ls_level := 0; ls_names := []; ls_exc := false |})).
-  split; [|split]; [| vm_compute; discriminate | vm_compute; discriminate].
-  vm_compute. do 3 right. left. reflexivity.
-Qed.
+  existsb (fun s => Z.leb INFO (ls_level s) && negb (Nat.eqb (List.length (ls_names s)) 0)) log_sites = true.
+Proof. repeat split; vm_compute; reflexivity. Qed.
